@@ -190,7 +190,8 @@ def check(ctx, case):
     simfile.open = recording_open  # dir.py looks simfile.open up at call time
     try:
         mode = case["mode"]
-        opts_list = [{"strict": True}, {"strict": False}, {}] if mode != "utf16" else [{"encoding": "utf-16"}, {}]
+        opts_list = [{"strict": True}, {"strict": False}, {}, {"strict": False, "encoding": "utf-8"}, {"strict": True, "encoding": "utf-8"}] \
+            if mode != "utf16" else [{"encoding": "utf-16"}, {}, {"encoding": "utf-16", "strict": False}]
         ctx.feat(case["fs"])
         for path, d, rel in t.dirs:
             listing = t.fs.listdir(path)
